@@ -1,0 +1,6 @@
+//go:build verif
+
+package internal_planner
+
+// Fingerprint exposes the label-set hash of hash.go to the verification harness (no behaviour).
+var Fingerprint = fingerprint
